@@ -811,6 +811,8 @@ class Executor:
         if st is not None:
             self.called.add(name)
             return st(self, args, ins)
+        if name.endswith('.init') and not name.startswith('github.com/onflow/crypto'):
+            return None     # initialisers of dependency packages are not modelled (their globals are not read)
         if self.llvm is not None and name.startswith('github.com/onflow/crypto._Cfunc_'):
             return self.llvm.call_from_go(self, name, args, ins)
         fn = self.prog.funcs.get(name)
@@ -1554,7 +1556,8 @@ class Executor:
     def ensure_init(self):
         """run package initialisers once per path (they are concrete and cheap)"""
         for name in self.prog.inits:
-            self.call(name, [])
+            if name.startswith('github.com/onflow/crypto'):
+                self.call(name, [])
 
     def explore(self, entry, args_fn=None, on_path=None, run_init=True, max_paths=None):
         """explore all paths of function `entry`; returns list of path records"""
